@@ -164,6 +164,10 @@ class Gen:
             return f"(:{self.ch(self.roles)}:`{w}`)"
         if k == 30:
             return f"`{w}`{w}"
+        if k == 31:
+            # embedded-link forms at their edges: no link text, alias that is only an underscore / empty / blank / escaped
+            return ("`" + self.ch(["", "", w, w + " ", " "]) + "<" + self.ch(["_", "_", "a_", "\\_", "", " ", "__", "a b_", "_ ", "x y", "<", "_>", "\\"]) + ">`"
+                    + self.ch(["_", "_", "__"]))
         return w
 
     def text(self):
@@ -535,7 +539,7 @@ class Gen:
         if base in ("versionadded", "versionchanged", "deprecated"):
             return self.ch(["1.0", "1.0 text after", "1.0\n   second line", "*x*"])
         if base in ("option", "program"):
-            return self.ch(["--port", "-f <x>", "--port, -p", "mongod", "x", "-a, b", "--a=b, /c"])
+            return self.ch(["--port", "-f <x>", "--port, -p", "mongod", "x", "-a, b", "--a=b, /c", "--foo, , --bar", ", ", ",", "--a, ", " , -b", "-a, , ,", "=", "--x <y>, <z>"])
         if base in ("tabs-selector", "tabs-pillstrip"):
             return self.ch(["drivers", "platforms", "x"])
         if base == "time":
